@@ -419,6 +419,10 @@ func getPeerNsNameFormat(peer Peer) string {
 // isPeerFocusWorkload returns true if focus-workload flag is not used (each peer is included),
 // or if the focus-workload is equal to peer's name
 func (ca *ConnlistAnalyzer) isPeerFocusWorkload(peer Peer) bool {
+	if ca.focusWorkload != "" && peer.IsPeerIPType() {
+		// an ip-block has neither a name nor a namespace: it is no workload to focus on (its namespace/name form is "/")
+		return false
+	}
 	return ca.focusWorkload == "" || peer.Name() == ca.focusWorkload || getPeerNsNameFormat(peer) == ca.focusWorkload
 }
 
